@@ -6,18 +6,34 @@ the translation or the equality proof then fails and the driver reports a broken
 import os
 import py2coq
 
-CFG = {
-    "name": "src_resolve_path_parts",
-    "params": [("path_parts", "list str")],
-    "ret": "list str",
-    "num": "N",
-    "kinds": {"part": "str", "ret": "list", "path_parts": "list"},
-    "consts": {repr('.'): "[46]", repr('..'): "[46; 46]", repr(''): "(@nil N)"},
-    "eqb": {"str": "str_eqb", "list": "strs_eqb"},
-    "truthy": {"list": "nonempty", "str": "nonempty"},
-    "calls": {"len": ("py_len", "int"), "list": ("", "list")},
-    "subscripts": {("list", "[0]"): ("py_first", "str"), ("list", "[-1:]"): ("py_last1", "list")},
-}
+def _cfg(node):
+    """Kinds are declared by ROLE, not by name, so that renaming the parameter or a local of
+    resolve_path_parts is not an alarm: the single parameter and every name bound to a list
+    display are lists of segments, the loop variable is a segment."""
+    import ast
+    if len(node.args.args) != 1:
+        raise py2coq.Unsupported("resolve_path_parts no longer takes exactly one parameter")
+    param = node.args.args[0].arg
+    kinds = {param: "list"}
+    for n in ast.walk(node):
+        if isinstance(n, ast.Assign) and len(n.targets) == 1 and isinstance(n.targets[0], ast.Name) \
+                and isinstance(n.value, ast.List):
+            kinds[n.targets[0].id] = "list"
+        elif isinstance(n, ast.For) and isinstance(n.target, ast.Name):
+            kinds[n.target.id] = "str"
+    return {
+        "name": "src_resolve_path_parts",
+        "params": [(param, "list str")],
+        "ret": "list str",
+        "num": "N",
+        "kinds": kinds,
+        "consts": {repr('.'): "[46]", repr('..'): "[46; 46]", repr(''): "(@nil N)"},
+        "eqb": {"str": "str_eqb", "list": "strs_eqb"},
+        "truthy": {"list": "nonempty", "str": "nonempty"},
+        "calls": {"len": ("py_len", "int"), "list": ("", "list")},
+        "subscripts": {("list", "[0]"): ("py_first", "str"), ("list", "[-1:]"): ("py_last1", "list")},
+    }
+
 
 HEADER = """(* GENERATED on every run by harness/translators/c07_src.py from %s
    (resolve_path_parts); do not edit. *)
@@ -28,7 +44,8 @@ Open Scope N_scope.
 
 def generate(repo):
     path = os.path.join(repo, "boltons", "urlutils.py")
-    return {"C07_Src": HEADER % path + py2coq.translate(path, "resolve_path_parts", CFG)}
+    node = py2coq.get_function(path, "resolve_path_parts")
+    return {"C07_Src": HEADER % path + py2coq.Translator(_cfg(node)).function(node)}
 
 
 if __name__ == "__main__":
